@@ -159,4 +159,8 @@ theorem cog19_energy_tree (p : Cog19.P) (c a lam0 α β r t : ℝ)
   · obtain ⟨h1, h2, h3⟩ := cog19_tree_pre p r t h
     rw [energyResT_congr_near h1 h2 h3]; exact cog19_pre_energy p c a lam0 α β r t
 
+/-- non-vacuity of the hypotheses of the tree-level theorems (class defaults, r = 2, t = 1; shock at 0.46) -/
+example : ∃ p : Cog19.P, ∃ r t : ℝ, 0 < r ∧ 0 < r - p.u0 * t ∧ r ≠ (-(p.gamma - 1)) * p.u0 * t / 2 :=
+  ⟨⟨40, 0, 0, 0, 0, 7 / 5, 3, 0, 9 / 5, -23 / 10⟩, 2, 1, by norm_num, by norm_num, by norm_num⟩
+
 end EPV.C01
